@@ -15,6 +15,10 @@ current source to be this one. Where each line went in the model:
   `int64(float64(v5) * v7)` = `tier·num/den`) and `calcBudgetNat` (`den = 1`)
 * `plan.scoreIf` is the one entry that depends on the variant (`Options.skipNoop`, regenerated as
   `BlugeGen.C19.skipNoop`): the pinned `len(roster) > 0` or the guard of work/C19/fix-noop-singleton-rosters.diff
+* `writer.*` (index/config.go): `defaultConfig()` initialises the writer's `MergePlanOptions` from the identifier
+  `mergeplan.DefaultMergePlanOptions` (not from a literal that can forget a field) and the three constructors only
+  go through `defaultConfig()` → the options of every writer are the model's `defaultOptions` with growth 10.0, weight 2.0
+  (also compared field by field on the real constructors: harness line `defaults`)
 * `package.*` → determinism on the Go side: no clock, random source, map, goroutine or select in the package -/
 namespace Bluge.C19
 
@@ -37,6 +41,10 @@ def expectedFacts (skipNoop : Bool) : List (String × String) := [
   ("calcBudget.guards", "if _ < 1; if _ < 1; if _ < 1; for _ > 0; if _ < float64(_)"),
   ("calcBudget.body", "{ v5 := v2; if v5 < 1 { v5 = 1 }; v6 := v3.MaxSegmentsPerTier; if v6 < 1 { v6 = 1 }; v7 := v3.TierGrowth; if v7 < 1 { v7 = 1 }; for v1 > 0 { v8 := float64(v1) / float64(v5); if v8 < float64(v6) { v4 += int(math.Ceil(v8)); break }; v4 += v6; v1 -= int64(v6) * v5; v5 = int64(float64(v5) * v7) }; return v4 }"),
   ("scoreSegments", "_ <= 0 || _ <= 0 || _ <= 0 => return 0 lits 0,0,0,0,0,0.05"),
+  ("writer.mergePlanOptions", "mergeplan.DefaultMergePlanOptions"),
+  ("writer.DefaultConfig", "defaultConfig()=1 MergePlanOptions-touched=0"),
+  ("writer.InMemoryOnlyConfig", "defaultConfig()=1 MergePlanOptions-touched=0"),
+  ("writer.DefaultConfigWithDirectory", "defaultConfig()=1 MergePlanOptions-touched=0"),
   ("package.imports", "errors,fmt,math,sort,strings"),
   ("package.nondeterminism", "maps=0 go=0 select=0")
 ]
